@@ -93,10 +93,22 @@ static void sc_error(void) {
 }
 
 static char inipath[128];
+/* text rendering of everything an INI object answers (sections, keys, string values), taken with no failpoint active */
+static void ini_render(PIniFile *ini, char *out, size_t cap) {
+	PList *secs = p_ini_file_sections(ini), *s; size_t o = 0; out[0] = 0;
+	for (s = secs; s; s = s->next) {
+		PList *keys = p_ini_file_keys(ini, s->data), *k;
+		o += (size_t)snprintf(out + o, o < cap ? cap - o : 0, "[%s]", (char *)s->data);
+		for (k = keys; k; k = k->next) { pchar *v = p_ini_file_parameter_string(ini, s->data, k->data, NULL); o += (size_t)snprintf(out + o, o < cap ? cap - o : 0, "%s=%s|", (char *)k->data, v ? v : "(null)"); p_free(v); }
+		p_list_foreach(keys, (PFunc)p_free, NULL); p_list_free(keys);
+	}
+	p_list_foreach(secs, (PFunc)p_free, NULL); p_list_free(secs);
+}
 static void sc_ini(void) {
-	PIniFile *ini = p_ini_file_new(inipath); PList *secs, *s;
+	PIniFile *ini = p_ini_file_new(inipath); PList *secs, *s; static char before[2048], after[2048];
 	if (!ini) return;
 	if (p_ini_file_parse(ini, NULL)) {
+		VA_QUIET(ini_render(ini, before, sizeof before));
 		secs = p_ini_file_sections(ini);
 		for (s = secs; s; s = s->next) {
 			PList *keys = p_ini_file_keys(ini, s->data), *k;
@@ -110,6 +122,9 @@ static void sc_ini(void) {
 		}
 		p_list_foreach(secs, (PFunc)p_free, NULL); p_list_free(secs);
 		{ pchar *v = p_ini_file_parameter_string(ini, "nosuch", "k", "dflt"); p_free(v); }
+		(void)p_ini_file_parse(ini, NULL);      /* documented no-op on a parsed object */
+		VA_QUIET(ini_render(ini, after, sizeof after));
+		if (strcmp(before, after)) DAMAGE("INI object answers differently after (failed) getter calls");
 	}
 	{ PError *err = NULL; PIniFile *bad = p_ini_file_new("/nonexistent/vf.ini"); if (bad) { (void)p_ini_file_parse(bad, &err); p_error_free(err); p_ini_file_free(bad); } }
 	p_ini_file_free(ini);
@@ -133,13 +148,35 @@ static void sc_dir(void) {
 	{ char sub[160]; snprintf(sub, sizeof sub, "%s/sub", dirpath); (void)p_dir_create(sub, 0755, &err); p_error_free(err); err = NULL; (void)p_dir_is_exists(sub); (void)p_dir_remove(sub, &err); p_error_free(err); err = NULL; (void)p_dir_remove(sub, &err); p_error_free(err); }
 }
 
+/* reference digests of "abc" and "abcdefgh" per algorithm, computed right after library start, before any failpoint exists */
+static char hash_ref_str[11][2][140]; static int hash_ref_ok;
+static void hash_refs_prepare(void) {
+	int a, m; static const char *msg[2] = { "abc", "abcdefgh" };
+	for (a = 0; a <= 10; a++) for (m = 0; m < 2; m++) {
+		PCryptoHash *h = p_crypto_hash_new((PCryptoHashType)a); pchar *s;
+		if (!h) return;
+		p_crypto_hash_update(h, (const puchar *)msg[m], strlen(msg[m])); s = p_crypto_hash_get_string(h);
+		if (!s) { p_crypto_hash_free(h); return; }
+		snprintf(hash_ref_str[a][m], sizeof hash_ref_str[a][m], "%s", s); p_free(s); p_crypto_hash_free(h);
+	}
+	hash_ref_ok = 1;
+}
+static void hash_hex(const puchar *d, psize n, char *out) { psize i; for (i = 0; i < n; i++) sprintf(out + 2 * i, "%02x", d[i]); out[2 * n] = 0; }
 static void sc_hash(void) {
 	int a;
 	for (a = 0; a <= 10; a++) {
-		PCryptoHash *h = p_crypto_hash_new((PCryptoHashType)a); pchar *s; puchar dig[64]; psize len = sizeof dig;
+		PCryptoHash *h = p_crypto_hash_new((PCryptoHashType)a); pchar *s, *s2 = NULL; puchar dig[64]; psize len = sizeof dig; char hex[140];
 		if (!h) continue;
-		p_crypto_hash_update(h, (const puchar *)"abc", 3); s = p_crypto_hash_get_string(h); p_free(s);
-		p_crypto_hash_reset(h); p_crypto_hash_update(h, (const puchar *)"abcdefgh", 8); p_crypto_hash_get_digest(h, dig, &len);
+		p_crypto_hash_update(h, (const puchar *)"abc", 3); s = p_crypto_hash_get_string(h);
+		if (hash_ref_ok && s && strcmp(s, hash_ref_str[a][0])) DAMAGE("hash type %d: wrong digest string", a);
+		/* whether or not that call failed, the hash object existed before it: asking again (no failure now) must give the digest of "abc" */
+		VA_QUIET(s2 = p_crypto_hash_get_string(h));
+		if (hash_ref_ok && (!s2 || strcmp(s2, hash_ref_str[a][0]))) DAMAGE("hash type %d: digest asked again after a %s get_string is %s", a, s ? "successful" : "failed", s2 ? "different" : "NULL");
+		p_free(s); p_free(s2);
+		len = sizeof dig; p_crypto_hash_get_digest(h, dig, &len);
+		if (hash_ref_ok) { if (len != (psize)p_crypto_hash_get_length(h) || len > sizeof dig) DAMAGE("hash type %d: digest length %zu", a, (size_t)len); else { hash_hex(dig, len, hex); if (strcmp(hex, hash_ref_str[a][0])) DAMAGE("hash type %d: raw digest differs after get_string", a); } }
+		p_crypto_hash_reset(h); p_crypto_hash_update(h, (const puchar *)"abcdefgh", 8); len = sizeof dig; p_crypto_hash_get_digest(h, dig, &len);
+		if (hash_ref_ok && len <= sizeof dig) { hash_hex(dig, len, hex); if (strcmp(hex, hash_ref_str[a][1])) DAMAGE("hash type %d: digest after reset differs", a); }
 		p_crypto_hash_free(h);
 	}
 }
